@@ -390,44 +390,64 @@ theorem plain_of (b : Bytes) (h1 : b ≠ []) (h2 : b.length ≤ 11) (h3 : b.all 
   · intro x hx; simpa [hx] using h4
   · intro x hx; simpa [hx] using h5
 
-/-- eleven-byte field name, eleven-byte tag, a reader type with the fields permuted, an interface geometry field, a
-column read twice and names differing in case: all hypotheses hold, so the theorem determines the whole read result -/
-example : ∀ reuse, (writeAllS (fun (a b : Pt Nat) => a == b) enc recs).2 = [.ok, .ok] ∧
-    readS 0 ⟨enc.shpType, enc.fields, (writeAllS (fun (a b : Pt Nat) => a == b) enc recs).1⟩ (rfs.map RField.sf) reuse =
-      ⟨recs.map (fun r => rfs.map (backField nrm r)), false, false⟩ := by
-  intro reuse
-  have henc : newEncoder sfs = .ok enc := by rfl
+abbrev eqN : Pt Nat → Pt Nat → Bool := fun a b => a == b
+
+theorem h_enc : newEncoder sfs = .ok enc := by rfl
+
+theorem h_plain : ∀ sf ∈ attrsOf sfs, Plain (effName sf) := by
   have hattrs : attrsOf sfs = sfs.tail := by decide +kernel
-  refine C16_struct_file_roundtrip (fun (a b : Pt Nat) => a == b) 0 sfs enc henc ?_ ?_ recs nrm ?_ ?_ ?_ rfs reuse ?_
-  · intro sf hsf
-    rw [hattrs] at hsf
-    simp [sfs] at hsf
-    rcases hsf with rfl | rfl | rfl <;> exact plain_of _ (by decide) (by decide) (by decide +kernel +revert) (by decide +kernel +revert) (by decide +kernel +revert)
-  · intro a b ha hb
-    have hl : (attrsOf sfs).length = 3 := by decide +kernel +revert
-    have ha' : a = 0 ∨ a = 1 ∨ a = 2 := by omega
-    have hb' : b = 0 ∨ b = 1 ∨ b = 2 := by omega
-    rcases ha' with rfl | rfl | rfl <;> rcases hb' with rfl | rfl | rfl <;> first | (intro _; rfl) | (intro h; exact absurd h (by decide +kernel +revert))
-  · intro r hr
-    simp [recs] at hr
-    rcases hr with rfl | rfl <;> exact ⟨rfl, by simp⟩
-  · intro r hr
-    simp [recs] at hr
-    rcases hr with rfl | rfl <;> rfl
-  · intro r hr i hi hv ha
-    have hi' : i = 0 ∨ i = 1 ∨ i = 2 := by simp [enc] at hi; omega
-    simp [recs] at hr
-    rcases hr with rfl | rfl <;> rcases hi' with rfl | rfl | rfl <;>
-      exact ⟨by decide +kernel +revert, by first | exact ⟨by decide, by decide⟩ | trivial | (right; decide), by decide +kernel +revert⟩
-  · intro rf hrf
-    simp [rfs] at hrf
-    rcases hrf with rfl | rfl | rfl | rfl | rfl | rfl
-    · exact ⟨by decide +kernel +revert, by decide +kernel +revert, by unfold Matches; decide +kernel +revert⟩
-    · intro r hr; simp [recs] at hr; rcases hr with rfl | rfl <;> exact ⟨by simp [nrm], Or.inr rfl⟩
-    · exact ⟨by decide +kernel +revert, by decide +kernel +revert, by unfold Matches; decide +kernel +revert⟩
-    · exact ⟨by decide +kernel +revert, by decide +kernel +revert, by unfold Matches; decide +kernel +revert⟩
-    · intro r hr; simp [recs] at hr; rcases hr with rfl | rfl <;> exact ⟨by simp [nrm], Or.inl rfl⟩
-    · exact ⟨by decide +kernel +revert, by decide +kernel +revert, by unfold Matches; decide +kernel +revert⟩
+  intro sf hsf
+  rw [hattrs] at hsf
+  simp [sfs] at hsf
+  rcases hsf with rfl | rfl | rfl <;> exact plain_of _ (by decide) (by decide) (by decide +kernel +revert) (by decide +kernel +revert) (by decide +kernel +revert)
+
+theorem h_distinct : ∀ a b (ha : a < (attrsOf sfs).length) (hb : b < (attrsOf sfs).length),
+    keyOf (attrsOf sfs)[a] = keyOf (attrsOf sfs)[b] → a = b := by
+  intro a b ha hb
+  have hl : (attrsOf sfs).length = 3 := by decide +kernel +revert
+  have ha' : a = 0 ∨ a = 1 ∨ a = 2 := by omega
+  have hb' : b = 0 ∨ b = 1 ∨ b = 2 := by omega
+  rcases ha' with rfl | rfl | rfl <;> rcases hb' with rfl | rfl | rfl <;> first | (intro _; rfl) | (intro h; exact absurd h (by decide +kernel +revert))
+
+theorem h_sup : ∀ r ∈ recs, Spec.normal eqN r.1 = some (nrm r.1) ∧ r.1 ≠ .nil := by
+  intro r hr
+  simp [recs] at hr
+  rcases hr with rfl | rfl <;> exact ⟨rfl, by simp⟩
+
+theorem h_len : ∀ r ∈ recs, enc.fields.length = r.2.length := by
+  intro r hr
+  simp [recs] at hr
+  rcases hr with rfl | rfl <;> rfl
+
+theorem h_fit : ∀ r ∈ recs, ∀ i (hi : i < enc.fields.length) (hv : i < r.2.length) (ha : i < (attrsOf sfs).length),
+    writeAttr enc.fields[i] r.2[i] = some (render enc.fields[i] r.2[i]) ∧ ValOK enc.fields[i] r.2[i] ∧
+    valKind r.2[i] = (attrsOf sfs)[i].kind := by
+  intro r hr i hi hv ha
+  have hi' : i = 0 ∨ i = 1 ∨ i = 2 := by simp [enc] at hi; omega
+  simp [recs] at hr
+  rcases hr with rfl | rfl <;> rcases hi' with rfl | rfl | rfl <;>
+    exact ⟨by decide +kernel +revert, by first | exact ⟨by decide, by decide⟩ | trivial | (right; decide), by decide +kernel +revert⟩
+
+theorem h_reader : ∀ rf ∈ rfs, match rf with
+    | .geom _ _ k => ∀ r ∈ recs, GeomFieldOK k (nrm r.1)
+    | .attr sf col => ∃ (h : col < (attrsOf sfs).length), sf.kind = (attrsOf sfs)[col].kind ∧ Matches (attrsOf sfs) sf col := by
+  intro rf hrf
+  simp [rfs] at hrf
+  rcases hrf with rfl | rfl | rfl | rfl | rfl | rfl
+  · exact ⟨by decide +kernel +revert, by decide +kernel +revert, by unfold Matches; decide +kernel +revert⟩
+  · intro r hr; simp [recs] at hr; rcases hr with rfl | rfl <;> exact ⟨by simp [nrm], Or.inr rfl⟩
+  · exact ⟨by decide +kernel +revert, by decide +kernel +revert, by unfold Matches; decide +kernel +revert⟩
+  · exact ⟨by decide +kernel +revert, by decide +kernel +revert, by unfold Matches; decide +kernel +revert⟩
+  · intro r hr; simp [recs] at hr; rcases hr with rfl | rfl <;> exact ⟨by simp [nrm], Or.inl rfl⟩
+  · exact ⟨by decide +kernel +revert, by decide +kernel +revert, by unfold Matches; decide +kernel +revert⟩
+
+/-- eleven-byte field name, eleven-byte tag, a reader type with the fields permuted, an interface geometry field, a
+column read twice and names differing in case: all hypotheses hold (`h_enc` … `h_reader`), so the theorem determines the
+whole read result -/
+example : ∀ reuse, (writeAllS eqN enc recs).2 = [.ok, .ok] ∧
+    readS 0 ⟨enc.shpType, enc.fields, (writeAllS eqN enc recs).1⟩ (rfs.map RField.sf) reuse =
+      ⟨recs.map (fun r => rfs.map (backField nrm r)), false, false⟩ :=
+  fun reuse => C16_struct_file_roundtrip eqN 0 sfs enc h_enc h_plain h_distinct recs nrm h_sup h_len h_fit rfs reuse h_reader
 end StructExample
 
 end GeomV.C16
